@@ -257,6 +257,13 @@ func GenWorldCfg(g *Rng, opt GenOpts) (World, map[string]any) {
 			w.Env["VERIF_DEP"] = "envdep"
 			cfg["depends"] = append(cfg["depends"].([]any), "${VERIF_DEP}")
 		}
+		if x.feat("duplicate_relations", 0.25) {
+			// adjacent identical entries (two variables expanding to the same
+			// package, a copy-paste): legal, and kept as written
+			d := cfg["depends"].([]any)
+			cfg["depends"] = append([]any{d[0], d[0]}, d[1:]...)
+			cfg["provides"] = []any{"virtualpkg", "virtualpkg", "otherpkg"}
+		}
 	}
 
 	// ---- mtime ---------------------------------------------------------------
